@@ -265,7 +265,7 @@ Qed.
 
 Theorem step_dinv : forall s o, d_inv s -> d_inv (fst (step s o)) /\ dnl_life (fst (step s o)) = dnl_life s.
 Proof.
-  intros s o D. destruct o as [d|c|n w f|n cbp mbf|face n cbp mbf nonce life sent|n w f tok| |]; simpl.
+  intros s o D. destruct o as [d|c|n w f|n cbp mbf|face n cbp mbf nonce life sent|n w f tok| | |u]; simpl.
   - split; [|reflexivity]. apply (d_inv_same s _ D); try reflexivity; simpl; lia.
   - split; [|reflexivity]. apply (d_inv_same s _ D); try reflexivity; simpl; lia.
   - destruct (dsame_drel _ _ (dsame_insert_data s n w f)) as [A [B C]]. split; [apply C; exact D|exact A].
@@ -279,6 +279,8 @@ Proof.
     assert (H : forall (l0 : list (name * N * Z)) s0, dnl_life (fold_left sweep1 l0 s0) = dnl_life s0).
     { induction l0 as [|x t IH]; intro s0; simpl; [reflexivity|]. rewrite IH. reflexivity. }
     apply H.
+  - unfold mgmt_cap. destruct (max_int <? u)%N; [split; [exact D|reflexivity]|].
+    split; [|reflexivity]. apply (d_inv_same s _ D); try reflexivity; simpl; lia.
 Qed.
 
 Lemma init_dinv : forall t0 c sv ad life, d_inv (init t0 c sv ad life).
